@@ -746,7 +746,12 @@ pub fn check_reordered(case: &Case, out: &mut CaseOut) {
 
 // ---------------------------------------------------------------------------------------------
 // requests that hit a pending (unanswered) INVITE held by an acceptor: CANCEL and BYE are claimed by the
-// invite layer / usage, which answers them AND the INVITE; nobody ever ACKs the 487 here
+// invite layer / usage, which answers them AND the INVITE; nobody ever ACKs the 487 here (so it is re-sent on the
+// timer-G schedule until 64*T1). Also: the same histories with the transport refusing exactly one send (the request
+// whose own answer was refused is excused, all others keep their claim to one final response) or keeping every
+// send pending 2 ms; and PRACKs for a reliable 183 that arrive while the acceptor waits, after it gave up, after the
+// application abandoned the call, with another RAck, or twice: one final response each (200 from the usage, else
+// 404 / 481 from the stack; which of the two a late PRACK gets is not asserted)
 
 pub fn pending_cases(_tier: Tier) -> Vec<super::c12::Case> {
     use super::c12::{AppOp, Case as C, NetOp};
@@ -763,12 +768,57 @@ pub fn pending_cases(_tier: Tier) -> Vec<super::c12::Case> {
         vec![(5, cancel), (40_000, NetOp::Bye)],
     ];
     let mut out = vec![];
-    for (i, net) in patterns.into_iter().enumerate() {
+    for (i, net) in patterns.iter().enumerate() {
         for app in [vec![], vec![(1u64, AppOp::Prov180)]] {
             for net_first in [false, true] {
                 out.push(C { app: app.clone(), net: net.clone(), net_first, rng: i as u8, ..Default::default() });
             }
+            // the same over a transport whose sends stay pending 2 ms (the next request is processed while the
+            // answer to the previous one is still being written)
+            out.push(C { app: app.clone(), net: net.clone(), net_first: false, rng: i as u8, send_delay_ms: 2, ..Default::default() });
         }
+    }
+    // the transport refuses exactly one send (an io::Error from `Transport::send`, e.g. a pending ICMP error): the
+    // request whose own answer was refused is excused, every OTHER request of the history still gets its one
+    // final response (the answers to two requests are independent transactions)
+    for (i, net) in patterns.iter().take(4).enumerate() {
+        for app in [vec![], vec![(1u64, AppOp::Prov180)]] {
+            for fault in 0u8..4 {
+                for net_first in [false, true] {
+                    out.push(C { app: app.clone(), net: net.clone(), net_first, rng: (i as u8) * 4 + fault, fail_sends: vec![fault], ..Default::default() });
+                }
+            }
+        }
+    }
+    // PRACK for a reliable provisional response: the INVITE usage claims and answers the one the acceptor waits
+    // for; a PRACK that arrives when nobody waits any more (the acceptor gave up 31*T1 after the 183, or the
+    // application abandoned the call after 700 / 3000 ms), one with another RAck, and a second copy with a new
+    // branch are requests like any other: one final response each (from the usage, or 404 by the dialog layer)
+    let prack = NetOp::Prack { rack_ok: true, cseq_ok: true };
+    let other = NetOp::Prack { rack_ok: false, cseq_ok: true };
+    let gave_up = 1 + 31 * 500;
+    let nets: Vec<Vec<(u64, NetOp)>> = vec![
+        vec![(250, prack)],
+        vec![(1400, prack)],
+        vec![(gave_up - 50, prack)],
+        vec![(gave_up + 50, prack)],
+        vec![(20_000, prack)],
+        vec![(40_000, prack)],
+        vec![(20_000, prack), (20_500, prack)],
+        vec![(250, other), (20_000, other)],
+        vec![(1400, other), (20_000, prack), (20_001, other)],
+        vec![(1400, prack), (1401, prack), (20_000, prack)],
+        vec![(20_000, prack), (20_010, cancel)],
+        vec![(20_000, prack), (20_010, NetOp::Bye)],
+        vec![(5, NetOp::Bye), (20_000, prack)],
+        vec![(5, cancel), (20_000, prack)],
+    ];
+    for (i, net) in nets.iter().enumerate() {
+        for op in [AppOp::Rel183, AppOp::Rel183Abandon(700), AppOp::Rel183Abandon(3000)] {
+            out.push(C { app: vec![(1, op)], net: net.clone(), net_first: false, rng: 100 + i as u8, ..Default::default() });
+        }
+        out.push(C { app: vec![(1, AppOp::Rel183)], net: net.clone(), net_first: false, rng: 100 + i as u8, send_delay_ms: 2, ..Default::default() });
+        out.push(C { app: vec![(1, AppOp::Rel183)], net: net.clone(), net_first: false, rng: 100 + i as u8, reliable: true, ..Default::default() });
     }
     out
 }
@@ -790,9 +840,18 @@ pub fn check_pending(case: &super::c12::Case, out: &mut CaseOut) {
                 }
             }
             NetOp::Bye => branches.push((format!("z9hG4bKc12bye{n}"), "BYE".into(), *t)),
+            NetOp::Prack { .. } => branches.push((format!("z9hG4bKc12prack{n}"), "PRACK".into(), *t)),
             _ => {}
         }
     }
+    // final responses the transport refused to take, by (branch, method)
+    let refused: Vec<(String, String)> = obs
+        .refused
+        .iter()
+        .filter_map(|(_, m)| m.as_ref())
+        .filter(|m| !m.is_request() && m.status().unwrap_or(0) >= 200)
+        .filter_map(|m| Some((m.via_branch()?, m.cseq()?.1)))
+        .collect();
     let decisive = case.net.iter().any(|(_, o)| matches!(o, NetOp::Bye | NetOp::Cancel { branch_ok: true, cseq_ok: true }));
     for (branch, method, t) in &branches {
         let finals: Vec<(u64, u16, &[u8])> = obs
@@ -812,8 +871,44 @@ pub fn check_pending(case: &super::c12::Case, out: &mut CaseOut) {
             }
             continue;
         }
+        let own_answer_refused = refused.iter().any(|(b, m)| b == branch && m == method);
+        if own_answer_refused {
+            // the stack decided and tried; what a refused datagram means for this request is outside the statement
+            out.class("own answer refused by the transport (excused)");
+            if distinct.len() > 1 {
+                out.fail(format!("c08.pending/{}-two-different-finals", method.to_lowercase()), format!("{method} got {:?}", finals.iter().map(|f| f.1).collect::<Vec<_>>()));
+            }
+            continue;
+        }
+        if method == "PRACK" {
+            out.class(match finals.first().map(|f| f.1) {
+                Some(200) => "PRACK answered by the usage",
+                Some(_) => "PRACK nobody waits for answered by the stack",
+                None => "PRACK unanswered",
+            });
+            if let Some(f) = finals.iter().find(|f| ![200, 404, 481].contains(&f.1)) {
+                out.fail("c08.pending/prack-unexpected-code", format!("PRACK sent at {t} ms answered {} (the usage answers 200, the stack 404 / 481)", f.1));
+            }
+            if finals.len() > 1 && distinct.len() == 1 {
+                out.fail("c08.pending/prack-answered-twice", format!("PRACK sent at {t} ms (never retransmitted) got {} final responses", finals.len()));
+            }
+        }
+        // the 487 goes through the INVITE server transaction: re-sent at T1 doubling up to T2 until the ACK, which
+        // never comes here, i.e. until 64*T1 (only asserted where nothing else touches the schedule: unreliable
+        // transport, no send latency, no copy of the INVITE, no refused copy)
+        if method == "INVITE" && !finals.is_empty() && distinct.len() == 1 && !case.reliable && case.send_delay_ms == 0 && !case.net.iter().any(|(_, o)| *o == NetOp::DupInvite) {
+            let t0 = finals[0].0;
+            let mut want = vec![t0];
+            want.extend(ref_tsx::server_inv_timer_g_schedule().into_iter().map(|g| t0 + g));
+            let got: Vec<u64> = finals.iter().map(|f| f.0).collect();
+            if got != want {
+                out.fail("c08.pending/invite-487-not-retransmitted-until-64T1", format!("487 transmissions at {got:?}, expected {want:?} (nobody ACKs)"));
+            } else {
+                out.class("487 retransmitted until 64*T1");
+            }
+        }
         if finals.is_empty() {
-            out.fail(format!("c08.pending/{}-unanswered", method.to_lowercase()), format!("{method} (branch {branch}, sent at {t} ms) never got a final response although nobody ACKs the 487"));
+            out.fail(format!("c08.pending/{}-unanswered", method.to_lowercase()), format!("{method} (branch {branch}, sent at {t} ms) never got a final response (application ops {:?}, refused sends {:?})", case.app, case.fail_sends));
         } else if distinct.len() > 1 {
             out.fail(format!("c08.pending/{}-two-different-finals", method.to_lowercase()), format!("{method} got {:?}", finals.iter().map(|f| f.1).collect::<Vec<_>>()));
         }
@@ -821,6 +916,12 @@ pub fn check_pending(case: &super::c12::Case, out: &mut CaseOut) {
         // un-ACKed 487 has been given up, 35 s later — noted, not asserted)
     }
     out.class("request-hits-pending-invite");
+    if !case.fail_sends.is_empty() {
+        out.class(if obs.refused.is_empty() { "send-fault plan not reached" } else { "transport refused one send" });
+    }
+    if case.send_delay_ms > 0 {
+        out.class("send stays pending (back-pressure)");
+    }
     out.nontrivial(case);
 }
 
@@ -925,11 +1026,13 @@ pub fn property() -> Property {
     Property {
         fuzz: vec![],
         id: "C08",
-        rule: "a case = layer stack (1..4 policy layers, each Ignore / Inspect / Answer(code, delay) / TakeDrop per method; optionally DialogLayer at any position with 0..2 policy usages; optionally InviteLayer) x 1..4 requests (out-of-dialog, in-dialog for the existing / an unknown dialog, ACK, stray response, byte-identical retransmission; methods INVITE/OPTIONS/BYE/MESSAGE/CANCEL/unknown) arriving 0..2100 ms apart, ACK for rejected INVITEs at 250/700/1800 ms or never; both reliabilities. Oracle: first taking layer in registration order decides the code, else 404 (in-dialog, no usage wants it) / 481 by the stack; wire grouped by (branch, CSeq). Non-trivial = a layer inspects without taking before another layer/the stack answers, or an in-dialog request falls through all usages, or >=2 requests overlap; distinct by case.",
+        rule: "stack: a case = layer stack (1..4 policy layers, each Ignore / Inspect / Answer(code, delay) / TakeDrop per method; optionally DialogLayer at any position with 0..2 policy usages; optionally InviteLayer) x 1..4 requests (out-of-dialog, in-dialog for the existing / an unknown dialog, ACK, stray response, byte-identical retransmission; methods INVITE/OPTIONS/BYE/MESSAGE/CANCEL/unknown) arriving 0..2100 ms apart, ACK for rejected INVITEs at 250/700/1800 ms or never; both reliabilities. Oracle: first taking layer in registration order decides the code, else 404 (in-dialog, no usage wants it) / 481 by the stack; wire grouped by (branch, CSeq). Non-trivial = a layer inspects without taking before another layer/the stack answers, or an in-dialog request falls through all usages, or >=2 requests overlap; distinct by case. pending_invite (enumerated, acceptor world of C12): CANCEL / BYE / copies hitting an unanswered INVITE x {no 1xx, 180 sent} x both same-instant orders, x {transport refuses the k-th send, k=0..3} and x {every send stays pending 2 ms}; reliable 183 (waiting / abandoned by the application after 700, 3000 ms) x PRACK {while waiting, around and after the give-up instant 31*T1, wrong RAck, second copy, followed by CANCEL / BYE}; wire grouped by (branch, method): one final response per request, the un-ACKed 487 re-sent on the timer-G schedule until 64*T1. reordered_in_dialog, session_backlog: enumerated, see the sub-check comments.",
         assumptions: vec![
             "take-and-drop layers are excluded from the exactly-one count (the application chose not to answer) but must not cause an answer",
             "in-dialog requests carry increasing CSeq numbers in arrival order (re-ordering is C10's subject)",
             "instants where an ACK coincides with a timer-G instant are don't-cares",
+            "a request whose own final response the transport refused (io::Error from Transport::send) is excused from the exactly-one count: the stack decided and tried; every other request of the history is still owed its answer",
+            "which of 200 (usage) / 404 / 481 (stack) a PRACK gets that arrives when the acceptor no longer waits is not asserted, only that it gets exactly one of them",
         ],
         explanation: "sampled stacks and request mixes",
         subs: vec![
